@@ -574,7 +574,18 @@ class _Inliner(ast.NodeTransformer):
         before the statement and the call is replaced by E, provided nothing else is evaluated before the call."""
         if not isinstance(st, (ast.Expr, ast.Assign, ast.Return, ast.AugAssign, ast.AnnAssign)) or getattr(st, "value", None) is None:
             return None
-        call = _hoist_candidates(st.value, lambda c: self._target(c) is not None and not isinstance(self.helpers[self._target(c)][0], ast.AsyncFunctionDef) and self._expr_body(self.helpers[self._target(c)][0]) is None)
+        def wants_hoist(c):
+            k0 = self._target(c)
+            if k0 is None or isinstance(self.helpers[k0][0], ast.AsyncFunctionDef):
+                return False
+            fn0, meth0 = self.helpers[k0]
+            eb0 = self._expr_body(fn0)
+            if eb0 is None:
+                return True
+            env0 = _bind(fn0, c, meth0)
+            return env0 is not None and not all(_is_simple_expr(v) or _param_uses([eb0], p) <= 1 for p, v in env0.items())
+
+        call = _hoist_candidates(st.value, wants_hoist)
         if call is None:
             return None
         k = self._target(call)
@@ -632,8 +643,11 @@ class _Inliner(ast.NodeTransformer):
         is_async = isinstance(fn, ast.AsyncFunctionDef)
         if is_async != awaited:
             return None
-        if self._expr_body(fn) is not None:
-            return None  # expression inlining does it
+        eb = self._expr_body(fn)
+        if eb is not None:
+            env0 = _bind(fn, call, is_method)
+            if env0 is None or all(_is_simple_expr(v) or _param_uses([eb], p) <= 1 for p, v in env0.items()):
+                return None  # expression inlining does it
         body = _strip_doc(fn.body)
         if any(isinstance(x, (ast.Yield, ast.YieldFrom, ast.Global, ast.Nonlocal)) for b in body for x in ast.walk(b)):
             return None
@@ -1209,7 +1223,8 @@ class _AliasFold(ast.NodeTransformer):
                     if not (isinstance(tgt, ast.Name) and isinstance(val, ast.Attribute)):
                         continue
                     d = _dotted(val)
-                    if not d or d.split(".")[0] not in ("self", "cls") or stores.get(tgt.id) != 1 or tgt.id in params:
+                    root = d.split(".")[0] if d else None
+                    if not d or not (root in ("self", "cls") or (root in params and root not in stores)) or stores.get(tgt.id) != 1 or tgt.id in params:
                         continue
                     if any(d == c or d.startswith(c + ".") or c.startswith(d + ".") for c in stored_chains):
                         continue
@@ -1222,9 +1237,18 @@ class _AliasFold(ast.NodeTransformer):
                 for y in ast.walk(x):
                     if isinstance(y, ast.Name) and y.id in cands:
                         cands.pop(y.id, None)
+        order = {}
+
+        def number(node):
+            order[id(node)] = len(order)
+            for ch in ast.iter_child_nodes(node):
+                if not isinstance(ch, (ast.FunctionDef, ast.AsyncFunctionDef, ast.ClassDef, ast.Lambda)):
+                    number(ch)
+
+        number(fn)
         for name, (st, val, blk) in list(cands.items()):
             uses = [x for x in _walk_fn(fn) if isinstance(x, ast.Name) and x.id == name and isinstance(x.ctx, ast.Load)]
-            if any((u.lineno, u.col_offset) <= (st.lineno, st.col_offset) for u in uses):
+            if any(order.get(id(u), -1) <= order.get(id(st), 0) for u in uses):
                 cands.pop(name)
         if not cands:
             return fn
